@@ -20,6 +20,7 @@ MAX_DEPTH = 25
 # ------------------------------------------------------------------ heap
 class HObj:
     kind = "obj"
+    prev_iter = None    # loop being summarised whose earlier iterations may have mutated this container
 
     def __init__(self, born):
         self.born = born
@@ -44,7 +45,9 @@ class ListObj(HObj):
         self.typ = typ
 
     def concrete(self):
-        return all(i[0] == "v" and i[2] == TRUE for i in self.items)
+        """every element is individually known (no loop-produced, conditional or spliced-in unknown-length parts)"""
+        return self.prev_iter is None and all(i[0] == "v" and i[2] == TRUE and not (isinstance(i[1], Op) and (
+            i[1].op == "splat" or i[1].op.startswith("listmut:"))) for i in self.items)
 
 
 class DictObj(HObj):
@@ -57,7 +60,7 @@ class DictObj(HObj):
         self.typ = typ
 
     def concrete(self):
-        return all(isinstance(k, Const) and g == TRUE and not lc for k, v, g, lc in self.entries)
+        return self.prev_iter is None and all(isinstance(k, Const) and g == TRUE and not lc for k, v, g, lc in self.entries)
 
     def lookup(self, key):
         """latest unconditional store with this constant key, else None"""
@@ -142,6 +145,10 @@ class LoopCtl:
     def __init__(self):
         self.brk = []
         self.cont = []
+
+
+def snap_items(snap, oid):
+    return snap[0].get(oid, [])
 
 
 def nonneg(t):
@@ -615,6 +622,15 @@ class _ExprMixin:
             la, lb = self.as_list(a), self.as_list(b)
             if la is not None and lb is not None:
                 return self.alloc(ListObj(self.born_now(), list(la.items) + list(lb.items), la.typ))
+            # list + <opaque sequence>  /  <opaque sequence> + list: the opaque side is spliced in as a whole
+            if la is not None and not isinstance(b, (Ref, Const)):
+                return self.alloc(ListObj(self.born_now(), list(la.items) + [("v", Op("splat", b), TRUE)], la.typ))
+            if lb is not None and not isinstance(a, (Ref, Const)):
+                return self.alloc(ListObj(self.born_now(), [("v", Op("splat", a), TRUE)] + list(lb.items), lb.typ))
+            for x, y, first in ((la, b, True), (lb, a, False)):
+                if x is not None and isinstance(y, Const) and isinstance(y.v, tuple):
+                    its = [("v", Const(e), TRUE) for e in y.v]
+                    return self.alloc(ListObj(self.born_now(), (list(x.items) + its) if first else (its + list(x.items)), x.typ))
         if op == "mul":
             for x, y in ((a, b), (b, a)):
                 if is_const(x, str) and not isinstance(y, Const):
@@ -1067,6 +1083,8 @@ class _CallMixin:
         if name == "extend" and isinstance(self.simp(args[0]), GenV):
             self.run_generator(self.simp(args[0]), lambda val: self.list_method(ref, o, "append", [val], {}, node), node)
             return NONE
+        if name == "extend" and isinstance(args[0], Const) and isinstance(args[0].v, (tuple, list)):
+            args = [self.mk_list([Const(x) for x in args[0].v])]
         if name == "extend":
             src = self.as_list(args[0])
             lc = self.loop_ctx[-1] if self.loop_ctx else None
@@ -1869,11 +1887,24 @@ class _LoopMixin:
         L.elem = elem
         snap = self.snapshot()
         outer_log = self.writelog
-        # pass 1: discover the locations written by the body
+        # pass 1: discover the locations written by the body.  Every container that exists already may have been
+        # changed by an earlier iteration, so nothing about its contents is folded to a constant during discovery.
         self.writelog = set()
-        self.run_body(st, L, elem, {})
+        pre_existing = [(oid, o) for oid, o in self.heap.items() if isinstance(o, (ListObj, DictObj)) and o.prev_iter is None
+                        and getattr(o, "shared", None) is None]
+        for _, o in pre_existing:
+            o.prev_iter = L
+        try:
+            self.run_body(st, L, elem, {})
+        finally:
+            for _, o in pre_existing:
+                o.prev_iter = None
         writes = set(self.writelog)
         self.restore(snap)
+        carried_objs = [o for oid, o in pre_existing if ("list", oid) in writes or ("dict", oid) in writes]
+        L.list_growth = {}
+        for o in carried_objs:
+            o.prev_iter = L
         locs = [w for w in writes if w[0] in ("local", "attr", "global", "classattr")
                 and self.loc_get(w) is not None]
         if kind == "for":
@@ -1914,6 +1945,15 @@ class _LoopMixin:
                 n += 1
             return t
         nxt = {w: under_own(self.simp(self.loc_get(w))) for w in locs}
+        # a list that gets a fixed number of unconditional appends per iteration has a closed-form length
+        for oid, o in pre_existing:
+            if o in carried_objs and isinstance(o, ListObj):
+                mine = [it for it in o.items if it[0] == "rep" and it[1] is L]
+                other = [it for it in o.items if not (it[0] == "rep" and it[1] is L)]
+                if all(it[3] == TRUE and not (isinstance(it[2], Op) and it[2].op in ("splat",) or (isinstance(it[2], Op) and it[2].op.startswith("listmut")))
+                       for it in mine) and all(it[0] == "v" and it[2] == TRUE and not (isinstance(it[1], Op) and (it[1].op == "splat" or it[1].op.startswith("listmut")))
+                                               for it in other) and len(other) == len(snap_items(snap, oid)):
+                    L.list_growth[oid] = (len(other), len(mine))
         closed = {}
         for w in locs:
             d = self.delta_of(nxt[w], lv[w], L, lv)
@@ -1933,6 +1973,8 @@ class _LoopMixin:
         nrc0, ndead0, nrd0 = len(fr.ret_conds), len(fr.dead), len(fr.rdead)
         fr.ret = Undef()
         brk = self.run_body(st, L, elem, start_vals, final=True)
+        for o in carried_objs:
+            o.prev_iter = None
         L.events = (ev0, len(self.events))
         L.breaks = brk
         for w in locs:
@@ -2117,6 +2159,13 @@ class _ExtMixin:
                 return Op("len", v)
         if isinstance(v, Ref):
             o = self.heap[v.oid]
+            if isinstance(o, ListObj) and o.prev_iter is not None:
+                Lc = o.prev_iter
+                gr = getattr(Lc, "list_growth", {}).get(v.oid)
+                if gr is not None and Lc in self.loop_ctx:
+                    sofar = len([it for it in o.items if it[0] == "rep" and it[1] is Lc])
+                    return add(Const(gr[0] + sofar), mul(Lc.idx, Const(gr[1])))
+                return Sym("lv%d:len#%d@%d" % (Lc.lid, v.oid, len(o.items)), "loopvar", (Lc.lid, ("len", v.oid)))
             if isinstance(o, ListObj) and o.concrete():
                 return Const(len(o.items))
             if isinstance(o, DictObj) and o.concrete():
